@@ -87,12 +87,12 @@ def _shift_block(b, loff, boff, unwind_to, frame):
     return nb
 
 
-def inline(crate, body, pick, max_depth=8):
+def inline(crate, body, pick, max_depth=8, _closure_round=0):
     root = copy.deepcopy(body.j)
     blocks = root['blocks']
     locals_ = list(root['locals'])
     for b in blocks:
-        b['frame'] = ()
+        b.setdefault('frame', ())
     work = [(i, 0, (body.path,)) for i in range(len(blocks))]
     inlined = []
     while work:
@@ -152,8 +152,47 @@ def inline(crate, body, pick, max_depth=8):
             work.append((i, depth + 1, stack + (callee.path,)))
     root['locals'] = locals_
     nb = Body(root, crate)
-    nb.inlined = inlined
+    nb.inlined = list(getattr(body, 'inlined', None) or []) + inlined
+    if _closure_round < 3:
+        nb2 = _inline_closure_calls(crate, nb, pick, max_depth, _closure_round)
+        if nb2 is not None:
+            return nb2
     return nb
+
+
+def _inline_closure_calls(crate, body, pick, max_depth, rnd):
+    """Calls `<F as FnOnce/FnMut/Fn>::call*(f, (args,))` where f is (a reference to) a closure literal visible in the
+    already inlined body: splice the closure body (closures handed to private helpers, e.g. `self.update(|f| ..)`)."""
+    from .terms import Terms, norm
+    T = None
+    targets = {}
+    for bi, blk in enumerate(body.blocks):
+        t = blk['term']
+        if t['k'] != 'call' or blk['cleanup']:
+            continue
+        cf = t.get('callee', '')
+        if not (cf.startswith('core::ops::function::Fn') and t.get('callee_name') in ('call', 'call_mut', 'call_once')):
+            continue
+        if t.get('resolved_kind') == 'item' and t.get('resolved') in crate.bodies and crate.bodies[t['resolved']].def_kind == 'Closure':
+            targets[bi] = crate.bodies[t['resolved']]
+            continue
+        if T is None:
+            T = Terms(body)
+        f = norm(T.operand_term(t['args'][0], bi, len(blk['stmts'])))
+        while f[0] in ('ref', 'deref', 'unsize', 'mutated'):
+            f = f[1]
+        if f[0] == 'closure' and f[1] in crate.bodies:
+            targets[bi] = crate.bodies[f[1]]
+    if not targets:
+        return None
+
+    def pick2(t, depth, stack):
+        for bi, cb in targets.items():
+            if body.blocks[bi]['term'] is t or (t.get('at') == body.blocks[bi]['term'].get('at') and t.get('dest') == body.blocks[bi]['term'].get('dest')
+                                                 and t.get('callee_full') == body.blocks[bi]['term'].get('callee_full')):
+                return cb
+        return pick(t, depth, stack)
+    return inline(crate, body, pick2, max_depth, _closure_round=rnd + 1)
 
 
 def local_picker(crate, only=None, never=None):
